@@ -646,6 +646,8 @@ func (s *sched) finish(cancelled bool) {
 	if s.broken || !s.allTerminal() {
 		return
 	}
+	// descriptors must be released by the code itself, not by a finalizer
+	fdsBeforeGC := arenaFDs(s.root)
 	runFinalizers()
 	s.r.Case("quiescent "+s.witness(), true)
 	if !s.quiet {
@@ -676,6 +678,8 @@ func (s *sched) finish(cancelled bool) {
 	s.mu.Unlock()
 	if n := arenaFDs(s.root); n != orphans {
 		s.fail("", fmt.Sprintf("open-descriptors-into-arena-after-all-closed n=%d expected=%d", n, orphans))
+	} else if fdsBeforeGC != orphans {
+		s.fail("", fmt.Sprintf("descriptors-into-arena-released-only-by-the-garbage-collector before-gc=%d after-gc=%d", fdsBeforeGC, n))
 	}
 	if n := dirEntries(s.root); n != 0 {
 		s.fail("", fmt.Sprintf("files-left-in-arena-dir n=%d", n))
@@ -743,6 +747,7 @@ func randomScenario(r *hx.Run, rnd *hx.Rand, layers []*layer, maxTasks, maxSteps
 	r.Op("reset", "ok", false)
 	nkeys := 1 + rnd.Intn(3)
 	cancelled := false
+	allowCancel := rnd.Chance(1, 3)
 	for step := 0; !s.broken && !r.Stop(); step++ {
 		drain := step >= maxSteps || len(s.tasks) >= maxTasks
 		cs := s.enabled(rnd, step >= maxSteps)
@@ -761,6 +766,18 @@ func randomScenario(r *hx.Run, rnd *hx.Rand, layers []*layer, maxTasks, maxSteps
 		if !drain && rnd.Chance(1, 40) {
 			s.gc(rnd.Intn(nkeys))
 			continue
+		}
+		if !allowCancel {
+			var keep []choice
+			for _, c := range cs {
+				if c.tag != "cancel" {
+					keep = append(keep, c)
+				}
+			}
+			cs = keep
+			if len(cs) == 0 {
+				break
+			}
 		}
 		c := pick(rnd, cs)
 		if c.tag == "cancel" {
